@@ -7,10 +7,6 @@ From JT.Model Require Import Frame Unpack Subpkg.
 From JT.Proofs Require Import Unpack_proofs Subpkg_proofs.
 Ltac Zify.zify_post_hook ::= Z.div_mod_to_equations.
 
-(* no transfer is old enough for the housekeeping pass to act at time now *)
-Definition fresh (now : N) (s : pstate) : Prop :=
-  Forall (fun kv => (x_create (snd kv) + 60000 <? now) = false /\ (x_update (snd kv) + 5000 <? now) = false) s.
-
 Lemma fresh_remove now id s : fresh now s -> fresh now (remove id s).
 Proof.
   unfold fresh. induction s as [|[k v] s IH]; intros H; cbn [remove]; auto.
